@@ -125,6 +125,9 @@ class Evaluator(object):
     def ev_Attribute(self, n, loc):
         v = self.ev(n.value, loc)
         if isinstance(v, Obj):
+            if v.__dict__.get('_closed') and n.attr not in v.__dict__['_attrs']:
+                # the object models a complete instance: an attribute it does not have is an AttributeError of the analysed code
+                raise PyRaise('%s has no attribute %s' % (v.__dict__['_name'], n.attr), 'AttributeError')
             return getattr(v, n.attr)
         if isinstance(v, Opaque):
             return Opaque('%s.%s' % (v.what, n.attr), n)
@@ -332,6 +335,19 @@ class Evaluator(object):
             if f.id in ('zip', 'enumerate', 'range'):
                 r = list(r)
             return r
+        if isinstance(f, ast.Name) and f.id in ('setattr', 'getattr', 'hasattr') and args and isinstance(args[0], Obj) and f.id not in self.env:
+            o_ = args[0]
+            if f.id == 'setattr' and len(args) == 3:
+                setattr(o_, args[1], args[2])
+                return None
+            if f.id == 'hasattr' and len(args) == 2:
+                return args[1] in o_.__dict__['_attrs'] or args[1] in o_.__dict__.get('_methods', {})
+            if f.id == 'getattr' and len(args) in (2, 3):
+                if args[1] in o_.__dict__['_attrs']:
+                    return o_.__dict__['_attrs'][args[1]]
+                if len(args) == 3:
+                    return args[2]
+                raise PyRaise('getattr: no attribute %s' % args[1], 'AttributeError')
         if isinstance(f, ast.Name):
             tgt = loc.get(f.id, self.env.get(f.id)) if loc is not None else self.env.get(f.id)
             if isinstance(tgt, Native):
@@ -341,9 +357,16 @@ class Evaluator(object):
         if isinstance(f, ast.Attribute):
             recv = self.ev(f.value, loc)
             if isinstance(recv, Obj) and f.attr in recv.__dict__.get('_methods', {}):
-                return self.call_user(recv.__dict__['_methods'][f.attr], [recv] + args, kw)
+                fn_ = recv.__dict__['_methods'][f.attr]
+                if recv.__dict__.get('_isclass') and f.attr not in recv.__dict__.get('_meta_methods', ()) \
+                        and not any(isinstance(d, ast.Name) and d.id in ('classmethod', 'staticmethod') for d in fn_.decorator_list):
+                    # Class.method(instance, ...): a plain function looked up on the class is not bound
+                    return self.call_user(fn_, args, kw)
+                return self.call_user(fn_, [recv] + args, kw)
             if isinstance(recv, Obj) and isinstance(recv.__dict__['_attrs'].get(f.attr), Native):
                 return recv.__dict__['_attrs'][f.attr].fn(*args, **kw)
+            if isinstance(recv, Obj) and recv.__dict__.get('_closed') and f.attr not in recv.__dict__['_attrs']:
+                raise PyRaise('%s has no method %s' % (recv.__dict__['_name'], f.attr), 'AttributeError')
             for t, names in SAFE_METHODS.items():
                 if isinstance(recv, t) and f.attr in names:
                     try:
@@ -367,9 +390,21 @@ class Evaluator(object):
     def call_user(self, fnode, args, kw=None):
         """Call a method of the analysed class (plain positional parameters, body in the evaluable subset)."""
         params = [a.arg for a in fnode.args.args]
-        if len(args) != len(params) or kw:
+        defaults = fnode.args.defaults
+        n_required = len(params) - len(defaults)
+        kw = dict(kw or {})
+        if len(args) > len(params) or fnode.args.vararg or fnode.args.kwarg or any(k not in params for k in kw):
             raise NotConst('call of %s with %d arguments' % (fnode.name, len(args)))
         scope = dict(zip(params, args))
+        for i, p_ in enumerate(params):
+            if p_ in scope:
+                continue
+            if p_ in kw:
+                scope[p_] = kw[p_]
+            elif i >= n_required:
+                scope[p_] = self.ev(defaults[i - n_required], None)
+            else:
+                raise NotConst('call of %s with %d arguments' % (fnode.name, len(args)))
         try:
             self.exec_stmts(fnode.body, scope)
         except _Return as r:
@@ -492,6 +527,9 @@ class Evaluator(object):
                 if isinstance(recv, Obj) and (isinstance(recv.__dict__['_attrs'].get(c.func.attr), Native) or c.func.attr in recv.__dict__.get('_methods', {})):
                     self.ev(c, loc)
                     return
+            if isinstance(c, ast.Call) and isinstance(c.func, ast.Name) and c.func.id == 'setattr' and 'setattr' not in self.env:
+                self.ev(c, loc)
+                return
             if isinstance(c, ast.Call) and isinstance(c.func, ast.Name):
                 tgt = (loc or {}).get(c.func.id, self.env.get(c.func.id))
                 if isinstance(tgt, (Native, ast.FunctionDef)):
